@@ -26,6 +26,8 @@ pub enum Inc {
     HalfFill,
     /// what is missing plus something
     Over(u32),
+    /// something, but only at steps where on-site production already covers the use (pure surplus)
+    SurplusOnly(u32),
 }
 
 #[derive(Clone, Debug, Serialize, Deserialize)]
@@ -33,6 +35,10 @@ pub struct Case {
     pub base: BFCase,
     pub inc: Vec<Inc>,
     pub id: i32,
+    /// the whole increment is pure surplus: added only at steps where on-site production already
+    /// covers the use (nothing more is self-consumed; every extra kWh is exported)
+    #[serde(default)]
+    pub pure_surplus: bool,
 }
 
 pub fn increment(c: &Case) -> Vec<f32> {
@@ -40,12 +46,24 @@ pub fn increment(c: &Case) -> Vec<f32> {
     (0..c.base.b.n)
         .map(|t| {
             let missing = ((us[t] - pv[t]).max(0.0) * 100.0).round() as i64;
-            let cents: i64 = match &c.inc[t % c.inc.len()] {
+            let kind = &c.inc[t % c.inc.len()];
+            let forced = match kind {
+                Inc::Cents(x) | Inc::Over(x) | Inc::SurplusOnly(x) => Inc::SurplusOnly(*x),
+                _ => Inc::Zero,
+            };
+            let cents: i64 = match if c.pure_surplus { &forced } else { kind } {
                 Inc::Zero => 0,
                 Inc::Cents(x) => *x as i64,
                 Inc::Fill => missing,
                 Inc::HalfFill => missing / 2,
                 Inc::Over(x) => missing + *x as i64,
+                Inc::SurplusOnly(x) => {
+                    if missing == 0 {
+                        *x as i64
+                    } else {
+                        0
+                    }
+                }
             };
             cents_f32(cents)
         })
@@ -68,7 +86,7 @@ impl Prop for C14 {
         ]
     }
     fn cases(tier: Tier) -> u32 {
-        tier.pick(3_000, 100_000)
+        tier.pick(8_000, 200_000)
     }
     fn strategy(tier: Tier) -> BoxedStrategy<Case> {
         let mut p = params(tier);
@@ -79,6 +97,7 @@ impl Prop for C14 {
             2 => Just(Inc::Fill),
             1 => Just(Inc::HalfFill),
             2 => (1u32..=100_000).prop_map(Inc::Over),
+            2 => (1u32..=100_000).prop_map(Inc::SurplusOnly),
         ];
         (
             building(&p),
@@ -88,8 +107,9 @@ impl Prop for C14 {
             any::<bool>(),
             vec(inc, 1..=p.max_steps),
             proptest::sample::select(vec![0i32, 1, 9, -3]),
+            prop::bool::weighted(0.3),
         )
-            .prop_map(|(b, f, k, area, lm, inc, id)| Case { base: BFCase { b, f, k, area, lm }, inc, id })
+            .prop_map(|(b, f, k, area, lm, inc, id, pure_surplus)| Case { base: BFCase { b, f, k, area, lm }, inc, id, pure_surplus })
             .boxed()
     }
     fn describe(c: &Case) -> Value {
@@ -148,6 +168,17 @@ impl Prop for C14 {
         }
         if used_chp(&e1) < used_chp(&e0) - tel {
             ctx.count("excluded_by_known_finding_signature(cogen displaced)", 1);
+        }
+        if let Some(bc) = e0.balance_cr.get(&el) {
+            if bc.exp.grid_an == 0.0 && bc.exp.nepus_an > 0.0 {
+                ctx.label("base:all_surplus_to_nepb");
+                if e1.balance_cr.get(&el).map(|b| b.exp.grid_an > 0.0).unwrap_or(false) {
+                    ctx.label("increment_pushes_surplus_to_grid");
+                    if k == 0.0 {
+                        ctx.label("increment_pushes_surplus_to_grid(k=0)");
+                    }
+                }
+            }
         }
         let (us, pv, _) = elec_use_pv(b0);
         let crosses = (0..b0.n).any(|t| pv[t] < us[t] && pv[t] + inc[t] as f64 >= us[t]);
